@@ -122,15 +122,15 @@ Proof.
   now rewrite take_subtree_children, H.
 Qed.
 
-Lemma child_of_exact : forall k c,
-  child_ok reg (TKStanza k) c = true -> exact_on (child_of reg true k) c.
+Lemma child_of_exact : forall sns k c,
+  child_ok reg (TKStanza k) c = true -> exact_on (child_of reg true sns k) c.
 Proof.
-  intros k [n a cs|s|] H; cbn [exact_on]; auto. intros r. cbn [child_ok] in H.
+  intros sns k [n a cs|s|] H; cbn [exact_on]; auto. intros r. cbn [child_ok] in H.
   assert (Hst : forall k', (if registered reg k' n then ext_ok k' n a (flatten_all cs) else true) = true ->
-                           stanza_child reg true k' n a (flatten_all cs ++ TEnd n :: r) = Some r).
+                           stanza_child reg true sns k' n a (flatten_all cs ++ TEnd n :: r) = Some r).
   { intros k' H'. unfold stanza_child. destruct (registered reg k' n).
     - now apply ext_elem_exact.
-    - destruct (known_child k' (snd n)).
+    - destruct (str_eqb (fst n) sns && known_child k' (snd n)).
       + destruct (str_eqb (snd n) s_error); [apply err_elem_exact | apply skip_children].
       + apply skip_children. }
   destruct k; cbn [child_of]; try (now apply Hst).
@@ -343,12 +343,13 @@ Proof.
   apply take_from_len in E. lia.
 Qed.
 
-Lemma child_of_nonincr : forall k, nonincr (child_of reg rp k).
+Lemma child_of_nonincr : forall sns k, nonincr (child_of reg rp sns k).
 Proof.
-  assert (Hst : forall k, nonincr (stanza_child reg rp k)).
+  intros sns.
+  assert (Hst : forall k, nonincr (stanza_child reg rp sns k)).
   { intros k n a r r' H. unfold stanza_child, err_elem in H.
     destruct (registered reg k n); [now apply ext_elem_nonincr in H|].
-    destruct (known_child k (snd n)).
+    destruct (str_eqb (fst n) sns && known_child k (snd n)).
     - destruct (str_eqb (snd n) s_error); [apply run_loop_len in H | apply skip_len in H]; lia.
     - destruct rp; [apply skip_len in H; lia | injection H as <-; lia]. }
   intros [| |]; cbn [child_of]; try apply Hst.
@@ -465,8 +466,8 @@ Proof.
 Qed.
 
 (* the loops' own fuel is never exhausted either *)
-Lemma stanza_loop_no_fuel : forall k self ts,
-  loop (S (length ts)) (child_of reg rp k) self ts <> LFuel.
+Lemma stanza_loop_no_fuel : forall sns k self ts,
+  loop (S (length ts)) (child_of reg rp sns k) self ts <> LFuel.
 Proof. intros. apply loop_no_fuel; [apply child_of_nonincr | lia]. Qed.
 
 Lemma inner_loops_no_fuel : forall self ts,
